@@ -346,9 +346,34 @@ func (p *Program) GenLemma(a *AxiomDecl) *Unit {
 			}
 		}()
 		vc := NewVC(p, a.Mode, u.Key)
+		if len(a.With) > 0 {
+			vc.with = map[string]bool{}
+			for _, n := range a.With {
+				vc.with[n] = true
+			}
+		}
 		p.prelude(vc, map[string]bool{a.Pkg: true})
 		env := &Env{vc: vc, st: NewState(), vars: map[string]Val{}, pkg: p.typesPkgByName(a.Pkg), pkgName: a.Pkg}
-		t, e := env.EvalBool(a.E)
+		goal := a.E
+		if a.Induct != "" {
+			q, ok := a.E.(*EQuant)
+			has := false
+			if ok && q.Forall {
+				for _, v := range q.Vars {
+					if v.Name == a.Induct {
+						has = true
+					}
+				}
+			}
+			if !has {
+				err = fmt.Errorf("induction %s: the lemma must be a forall binding %s at top level", a.Induct, a.Induct)
+				return
+			}
+			n := &EIdent{a.Induct}
+			ih := &ELet{a.Induct, &EBin{"-", n, &ELit{"1"}}, q.Body}
+			goal = &EQuant{Forall: true, Vars: q.Vars, Pats: q.Pats, Body: &EBin{"==>", &EBin{"==>", &EBin{">", n, &ELit{"0"}}, ih}, q.Body}}
+		}
+		t, e := env.EvalBool(goal)
 		if e != nil {
 			err = e
 			return
